@@ -36,6 +36,11 @@ chk('C06', 'TLC invariant Resync evaluated in every reachable tokenizer state pl
     'Trusted: Tokenizer.tla; "all prefixes" is represented by all reachable control states.',
     'DESIGN.md 5/C06')
 
+chk('C10', 'TLA+ model of ports.py at shared-access granularity (PortImpl) model-checked by TLC under a preemption bound; every schedule replayed on real threads with a deterministic scheduler; all Call/Return histories validated by TLC for linearizability against the property-level PortCore',
+    'PortImpl (one action per lock/deque/wire/sleep access of send, receive, poll, iter_pending on EchoPort, a byte-wise lock-protected device port and the IOPort wrapper) is model-checked for 9 programs of 2-4 threads with <= 1-4 preemptions (thorough 3-6): NoRaise, AtMostOnce, ExactlyOnce, PerSenderFifo, MutualExclusion. Every complete schedule (plus the schedules of the original test-then-pop design) is replayed on real threads over the real port classes, comparing the access each thread announces with the specification label; the recorded Call/Return histories, and those of seeded random / priority-based schedules of larger random programs on all four port kinds (MultiPort included), are validated by TLC against PortCore with inferred linearization points. Copy semantics: the sender mutates its message right after send().',
+    'Thread switches happen only at shared-state accesses (lock acquire/release, deque test/pop/append, wire byte read/write, sleep), not at arbitrary bytecodes. The device port is a harness double. Verdicts only at PortCore level; PortImpl divergence is counted.',
+    'DESIGN.md 5/C10')
+
 
 def build(not_applicable):
     checks = []
